@@ -264,11 +264,14 @@ func (e *Engine) verifyFunc(fc *FuncContract) (res *FuncResult) {
 	res.entryState = entryState
 	// the frame: fresh memory plus the modifies targets
 	{
-		f := &frame{entry: entryState, bound: paramBound, startSeq: paramSeq, all: fc.modAll}
+		f := &frame{entry: entryState, bound: paramBound, startSeq: paramSeq, all: fc.modAll || fc.assumeFrame}
 		for _, m := range fc.modifies {
 			e.addFrameTarget(f, e.evalModTarget(st, m), m)
 		}
 		e.frame = f
+		if fc.assumeFrame {
+			e.noteAssumption("assumed frame (assumeframe): call sites use the declared modifies clause of " + shortName(fc.key) + ", its body is not checked against it")
+		}
 	}
 	var results []*types.Var
 	for k := 0; k < sig.Results().Len(); k++ {
